@@ -15,7 +15,7 @@
      a form decode into a struct that fails is observed as (serr F): the content afterwards *)
 From Coq Require Import Strings.String Strings.Byte.
 From Coq Require Import List Arith NArith ZArith Bool Lia.
-From Verif Require Import Base.Bytes Base.Val Model.Strconv Model.UrlQuery Model.PlainCodec Model.FormCodec.
+From Verif Require Import Base.Bytes Base.Val Model.Strconv Model.UrlQuery Model.PlainCodec Model.FormCodec Model.MsgBody.
 Import ListNotations.
 
 Definition is (s : bytes) (name : string) : bool := bytes_eqb s (str name).
@@ -214,6 +214,81 @@ Definition form_dec_obs (data : bytes) (dst : fdst) : val :=
   | _ => dec_obs val_of_fres (form_unmarshal data dst)
   end.
 
+(* ---- socket.Message bodies: typed bodies are instantiated with the plain codec model
+        (codec id 's'); every other id used by the modelled cases is unregistered or irrelevant
+        (byte-stream bodies bypass the codec).
+     (sbody nID SRC)             SRC = snil | (sval xB) | (sptr xB) | sptrnil | (styped PSRC)
+     (sbodydec nID DST NB xDATA) DST = snil | (sptr xVISIBLE xSPARE) | sptrnil | (styped PDST)
+                                 NB  = snone | DST   (what newBodyFunc returns)
+     observed body afterwards:   snil | (sptr xVISIBLE) | sptrnil | (styped L)               *)
+Definition plain_id : byte := "s"%byte.
+
+Definition body_cm (id : byte) : option (psrc -> outcome bytes) :=
+  if beqb id plain_id then Some plain_marshal else None.
+
+(* the destination with its new content *)
+Definition pdst_with (d : pdst) (r : option leaf) : pdst :=
+  match d, r with
+  | DRefl _, Some l => DRefl l
+  | DSlice _, Some (LBytes b) => DSlice b
+  | _, _ => d
+  end.
+
+Definition body_cu (id : byte) : option (bytes -> pdst -> outcome pdst) :=
+  if beqb id plain_id then Some (fun data d => omap (pdst_with d) (plain_unmarshal data d)) else None.
+
+Definition msrc_of_val (v : val) : option (msrc psrc) :=
+  match v with
+  | VS s => if is s "nil" then Some (SNone psrc) else if is s "ptrnil" then Some (SPtrNil psrc) else None
+  | VL [VS t; a] =>
+      if is t "val" then match a with VB b => Some (SVal psrc b) | _ => None end
+      else if is t "ptr" then match a with VB b => Some (SPtr psrc b) | _ => None end
+      else if is t "typed" then option_map (STyped psrc) (psrc_of_val a)
+      else None
+  | _ => None
+  end.
+
+Definition mdst_of_val (v : val) : option (mdst pdst) :=
+  match v with
+  | VS s => if is s "nil" then Some (DNone pdst) else if is s "ptrnil" then Some (DPtrNil pdst) else None
+  | VL [VS t; VB vis; VB spare] => if is t "ptr" then Some (DPtr pdst (mkBS vis spare)) else None
+  | VL [VS t; a] => if is t "typed" then option_map (DTyped pdst) (pdst_of_val a) else None
+  | _ => None
+  end.
+
+Definition val_of_mdst (d : mdst pdst) : val :=
+  match d with
+  | DNone _ => vsym "nil"
+  | DPtr _ s => VL [vsym "ptr"; VB (bs_vis s)]
+  | DPtrNil _ => vsym "ptrnil"
+  | DTyped _ (DRefl l) => VL [vsym "typed"; val_of_leaf l]
+  | DTyped _ (DSlice old) => VL [vsym "typed"; val_of_leaf (LBytes old)]
+  | DTyped _ _ => vsym "typed"
+  end.
+
+Definition byte_of_N (n : N) : byte := n2b n.
+
+Definition run_body (inp : val) : option val :=
+  match inp with
+  | VL [VS c; VN id; a] =>
+      if is c "body" then
+        option_map (fun src => enc_obs (marshal_body psrc body_cm (byte_of_N id) src)) (msrc_of_val a)
+      else None
+  | VL [VS c; VN id; a; nb; VB data] =>
+      if is c "bodydec" then
+        match mdst_of_val a with
+        | None => None
+        | Some d =>
+            let nb' := match nb with VS _ => Some None | _ => option_map Some (mdst_of_val nb) end in
+            match nb' with
+            | None => None
+            | Some nbo => Some (dec_obs val_of_mdst (unmarshal_body pdst body_cu (byte_of_N id) data d nbo))
+            end
+        end
+      else None
+  | _ => None
+  end.
+
 Definition run (inp : val) : option val :=
   match inp with
   | VL [VS c; a; b] =>
@@ -249,8 +324,8 @@ Definition run (inp : val) : option val :=
         | Some dst, VB data => Some (dec_obs val_of_pres (plain_unmarshal data dst))
         | _, _ => None
         end
-      else None
-  | _ => None
+      else run_body inp
+  | _ => run_body inp
   end.
 
 Definition check_line := check_line_with run.
